@@ -7,6 +7,9 @@
 #[path = "../../corpus/replies.rs"]
 pub mod replies;
 
+#[path = "../../corpus/replies_inst.rs"]
+pub mod replies_inst;
+
 #[cfg(kani)]
 #[path = "../../corpus/replies_h.rs"]
 pub mod replies_h;
@@ -44,6 +47,95 @@ mod h {
     // empty data (present, zero bytes) is still "present"
     case!(d_raw_0, 7, sv::RAW_DATA_REPLY_ID, 0);
     case!(d_raw_opt_0, 8, sv::RAW_OPT_REPLY_ID, 0);
+
+    // ---- instantiate modes (envelope decoding, no JSON) -------------------------------------------
+    use crate::replies_inst::ri::{sv as isv, Ri};
+    use crate::replies_inst::RiErr;
+    use support::call::{any_in, check_call, check_no_call};
+    use sylvia::cw_std::{Binary, Reply, SubMsgResponse, SubMsgResult};
+
+    /// Reference for tiny envelopes, written from the protobuf wire format (NOT from cw-utils' code):
+    /// field 1 (contract address, length-delimited), optional field 2 (data).  Returns the address
+    /// bytes (len, first byte) when `d` is a well-formed instantiate response, else None.
+    fn envelope_ref<const L: usize>(d: &[u8; L]) -> Option<(u64, u64)> {
+        // tag byte: field number 1 (bits 3..), wire type 2 (the decoder looks at the two low bits)
+        if L < 2 || (d[0] >> 3) != 1 || (d[0] & 0b11) != 2 {
+            return None;
+        }
+        if L == 2 {
+            // tag, length 0: empty address, nothing else
+            return if d[1] == 0 { Some((0, 0)) } else { None };
+        }
+        // L == 3
+        if d[1] == 1 && d[2] < 0x80 {
+            return Some((1, d[2] as u64)); // one-byte (ASCII) address
+        }
+        if d[1] == 0x80 && d[2] == 0 {
+            return Some((0, 0)); // two-byte varint encoding of length 0
+        }
+        None
+    }
+
+    /// data absent (`$dl` = 0 means: no data at all) or `$dl` symbolic bytes
+    macro_rules! inst_case {
+        ($name:ident, $id:expr, $echo:literal, $opt:literal, $dl:literal) => {
+            #[kani::proof]
+            #[kani::unwind(12)]
+            #[kani::stub(std::backtrace::Backtrace::capture, bt_disabled)]
+            #[kani::stub(alloc::fmt::format, fmt_stub)]
+            fn $name() {
+                let i = any_in();
+                let gas: u64 = kani::any();
+                let d: [u8; $dl] = kani::any();
+                let present = $dl > 0;
+                #[allow(deprecated)]
+                let msg = Reply {
+                    id: $id,
+                    payload: Binary::from(vec![7u8]),
+                    gas_used: gas,
+                    result: SubMsgResult::Ok(SubMsgResponse {
+                        events: Vec::new(),
+                        data: if present { Some(Binary::from(d.to_vec())) } else { None },
+                        msg_responses: Vec::new(),
+                    }),
+                };
+                let mut w = i.world();
+                let res = isv::dispatch_reply(w.deps_mut(), i.env(), msg, Ri::new());
+                let want = if present { envelope_ref(&d) } else { None };
+                match (present, want) {
+                    (true, Some((alen, a0))) => {
+                        // well-formed: the handler gets the decoded envelope
+                        check_call(&i, &w, $echo, [gas, 1 + alen * 256 + a0, 0, 1], false, true);
+                        kani::cover!(alen == 1, "one-byte address decoded");
+                        kani::cover!(alen == 0, "empty address decoded");
+                    }
+                    (true, None) => {
+                        // undecodable data always fails with an error WITHOUT invoking the handler
+                        check_no_call(&w);
+                        assert!(res.is_err(), "malformed envelope => error (also for the optional mode)");
+                        kani::cover!(true, "malformed envelope");
+                    }
+                    (false, _) => {
+                        if $opt {
+                            check_call(&i, &w, $echo, [gas, 0, 0, 1], false, true);
+                            kani::cover!(true, "missing data => None");
+                        } else {
+                            check_no_call(&w);
+                            assert!(res.is_err(), "missing data => error for the mandatory mode");
+                            kani::cover!(true, "missing data => error");
+                        }
+                    }
+                }
+                core::mem::forget(res);
+            }
+        };
+    }
+    inst_case!(i_ins_absent, isv::INS_REPLY_ID, 480, false, 0);
+    inst_case!(i_ins_2, isv::INS_REPLY_ID, 480, false, 2);
+    inst_case!(i_ins_3, isv::INS_REPLY_ID, 480, false, 3);
+    inst_case!(i_ins_opt_absent, isv::INS_OPT_REPLY_ID, 490, true, 0);
+    inst_case!(i_ins_opt_2, isv::INS_OPT_REPLY_ID, 490, true, 2);
+    inst_case!(i_ins_opt_3, isv::INS_OPT_REPLY_ID, 490, true, 3);
 
     // @PLAYBACK h@
 }
